@@ -101,6 +101,54 @@ func runC19(c *vkit.Ctx, i int, h *History) {
 		c.Count("histories_through_shared_config_objects", 1)
 	}
 	stopped := false
+	// Between two calls of a process something else may rewrite a standalone file the
+	// process has already read or written (an editor, a checkout, a formatter): the next
+	// call that reaches the file must compare against the bytes on disk. Most edits keep
+	// the length (and so the size) of the file; the mtime is backdated by Step anyway.
+	edits := 0
+	if i%3 == 0 {
+		er := c.Rand("edit", i)
+		s.BeforeStep = func(o Op) {
+			if er.IntN(5) != 0 {
+				return
+			}
+			fs := s.StandaloneFiles()
+			if len(fs) == 0 {
+				return
+			}
+			p := fs[er.IntN(len(fs))]
+			old := s.Store.Files[p][0].Text
+			if len(old) > 8<<10 {
+				// the report of two long single-line texts is a character-level diff, quadratic
+				// in their length (minutes for 1 MiB): slow, not wrong, and not what is decided here
+				return
+			}
+			var nw string
+			switch x := er.IntN(4); {
+			case x == 0 || old == "":
+				nw = old + "tail"
+				h.Classes["foreign-edit-between-calls-longer"] = true
+			case x == 1 && len(old) >= 2 && old[0] != old[len(old)-1]:
+				b := []byte(old)
+				b[0], b[len(b)-1] = b[len(b)-1], b[0]
+				nw = string(b)
+				h.Classes["foreign-edit-between-calls-same-length"] = true
+			default:
+				b := []byte(old)
+				k := er.IntN(len(b))
+				if b[k] == 'x' {
+					b[k] = 'y'
+				} else {
+					b[k] = 'x'
+				}
+				nw = string(b)
+				h.Classes["foreign-edit-between-calls-same-length"] = true
+			}
+			s.ForeignEditStandalone(p, nw)
+			edits++
+			c.Count("foreign_edits_between_calls", 1)
+		}
+	}
 	report := func(phase string) func(o Op, res StepResult) bool {
 		return func(o Op, res StepResult) bool {
 			c.Count(phase+"_calls", 1)
@@ -151,6 +199,9 @@ func runC19(c *vkit.Ctx, i int, h *History) {
 				want := vkit.Passed
 				if o.Fail != "" {
 					want = vkit.Failed // a rejected call is rejected again, and still consumes its ordinal
+				}
+				if edits > 0 {
+					want = res.Expected // files edited behind the library's back fail until updated
 				}
 				if res.Got != want || len(res.Problems) > 0 {
 					stopped = true
